@@ -299,6 +299,15 @@ func (state *inlineState) spanEnd() int {
 	return state.unparsed[state.unparsedPos].Span().End
 }
 
+// advanceTo moves the span cursor to the unparsed span containing pos.
+func (state *inlineState) advanceTo(pos int) {
+	if i := nodeIndexForPosition(state.unparsed[state.unparsedPos:], pos); i >= 0 {
+		state.unparsedPos += i
+	} else {
+		state.unparsedPos = len(state.unparsed)
+	}
+}
+
 func (state *inlineState) isLastSpan() bool {
 	return state.unparsedPos >= len(state.unparsed)-1
 }
@@ -797,6 +806,7 @@ func (p *InlineParser) parseEndBracket(state *inlineState, start int) (end int) 
 				}
 				linkNode.children = append(linkNode.children, destNode)
 			}
+			state.advanceTo(info.span.End - 1)
 			p.finishLink(state, kind, openDelimIndex)
 			return info.span.End
 		}
@@ -867,6 +877,7 @@ func (p *InlineParser) parseEndBracket(state *inlineState, start int) (end int) 
 			Start: state.stack[openDelimIndex].node.span.Start,
 			End:   label.span.End,
 		}
+		state.advanceTo(label.span.End - 1)
 		p.finishLink(state, kind, openDelimIndex)
 		return linkNode.span.End
 	default:
@@ -922,16 +933,6 @@ type inlineLinkInfo struct {
 func (p *InlineParser) parseInlineLink(state *inlineState, start int) (result inlineLinkInfo) {
 	// Skip initial opening parenthesis.
 	r := newInlineByteReader(state.source, state.unparsed[state.unparsedPos:], start+1)
-	defer func() {
-		// If we successfully parse, advance the spans we're considering.
-		if result.span.IsValid() {
-			if i := nodeIndexForPosition(state.unparsed[state.unparsedPos:], result.span.End-1); i >= 0 {
-				state.unparsedPos += i
-			} else {
-				state.unparsedPos = len(state.unparsed)
-			}
-		}
-	}()
 	if !skipLinkSpace(r) {
 		return inlineLinkInfo{
 			span: NullSpan(),
